@@ -46,7 +46,7 @@ def main():
     na = [{"property_id": p["id"], "reason": "check under construction in this round; not yet claimed"} for p in props if p["id"] not in claims]
     m = {"version": 1, "setup_cmd": "./setup.sh",
          "hooks": {"guard": "spade_verif", "enable": "RUSTFLAGS=\"--cfg spade_verif\" (set by ./verify and ./setup.sh when they build the harness)",
-                   "baseline_off_cmd": "cd /repo && cargo test --workspace --no-fail-fast --offline", "source_commits": ["c93721e"], "add_only": True},
+                   "baseline_off_cmd": "cd /repo && cargo test --workspace --no-fail-fast --offline", "source_commits": ["c93721e", "6ab01eb"], "add_only": True},
          "engines": [{"name": "coq-spadev", "path": "/verif/coq", "serves_properties": sorted(claims),
                       "kind_free_text": "Coq 8.16 development (models, specifications, proofs) + translator tools/rs2v.py + extracted checker ocaml/ + Rust harness harness/ + driver ./verify"}],
          "checks": checks, "not_applicable": na,
